@@ -224,8 +224,10 @@ func (con *Connection) Close() error {
 	// Remove session from the context
 	// Sessions are stored by remote address. A new connection from the same address and port
 	// (a controller which comes back quickly) may own the entry by now, it must be kept.
+	// The entry is only deleted while it still holds this connection's session: the new
+	// connection may be accepted at this very moment.
 	if session := con.context.GetSessionForConnection(con.connection); session != nil && session.Connection() == net.Conn(con) {
-		con.context.DeleteSessionForConnection(con.connection)
+		con.context.DeleteSession(session)
 	}
 
 	return con.connection.Close()
